@@ -127,91 +127,7 @@ theorem list_hash_same_elems (T : SpkiTable) (iv : SInv T) :
   · have h1 : T.list.count r = 1 := by rw [iv.nodup.count]; simp [hr]
     refine ⟨?_, h1⟩
     rw [iv.same (spkiNode r)]; simp [spkiNode, h1]
-  · -- count = number of stored nodes = length of the list: both sums of multiplicities; we use
-    -- the pointwise statement above through the count of the invariant
-    rw [iv.ht.count_eq]
-    exact count_eq_length T iv
-where
-  count_eq_length (T : SpkiTable) (iv : SInv T) :
-      sumB List.length T.ht.bucket T.ht.valid = T.list.length := by
-    -- induction on the list is not available (the list does not determine the bucket layout);
-    -- instead remove the entries one by one with `removeExisting`, which keeps SInv
-    suffices ∀ n (T : SpkiTable), SInv T → T.list.length = n →
-        sumB List.length T.ht.bucket T.ht.valid = n from this _ T iv rfl
-    intro n
-    induction n with
-    | zero =>
-      intro T iv hl
-      have hnil : T.list = [] := List.eq_nil_of_length_eq_zero hl
-      -- no node is stored, so every valid bucket is empty
-      have hempty : ∀ i, i < T.ht.valid → T.ht.bucket i = [] := by
-        intro i hi
-        cases hb : T.ht.bucket i with
-        | nil => rfl
-        | cons a l =>
-          have : T.ht.Mem a := ⟨i, hi, by rw [hb]; simp⟩
-          have := (mem_node iv a).mp this
-          rw [hnil] at this; simp at this
-      generalize T.ht.valid = v at hempty
-      induction v with
-      | zero => rfl
-      | succ v ih =>
-        simp only [sumB]
-        rw [ih (fun i hi => hempty i (by omega)), hempty v (by omega)]; rfl
-    | succ n ih =>
-      intro T iv hl
-      cases hlist : T.list with
-      | nil => rw [hlist] at hl; simp at hl
-      | cons e rest =>
-        have hin : e ∈ T.list := by rw [hlist]; simp
-        have hmem : T.ht.Mem (spkiNode e) := (mem_node iv _).mpr ⟨rfl, hin⟩
-        obtain ⟨hi, hm⟩ := Hashlin.removeExisting_spec iv.ht (spkiNode e) hmem
-        have iv1 := sinv_erase iv e _ hi hm
-        have hl1 : ({ T with ht := T.ht.removeExisting (spkiNode e), list := T.list.erase e } : SpkiTable).list.length = n := by
-          show (T.list.erase e).length = n
-          rw [List.length_erase_of_mem hin]; omega
-        have := ih _ iv1 hl1
-        have c1 := hi.count_eq
-        have c0 := iv.ht.count_eq
-        have hc : (T.ht.removeExisting (spkiNode e)).count = T.ht.count - 1 := by
-          have hk := Hashlin.shrinkStep_keeps
-            { T.ht with bucket := upd T.ht.bucket (T.ht.bucketPos (spkiNode e).key)
-                ((T.ht.bucket (T.ht.bucketPos (spkiNode e).key)).erase (spkiNode e)), count := T.ht.count - 1 }
-          -- count is untouched by the shrink step
-          have hw : Hashlin.Wf
-              { T.ht with bucket := upd T.ht.bucket (T.ht.bucketPos (spkiNode e).key)
-                ((T.ht.bucket (T.ht.bucketPos (spkiNode e).key)).erase (spkiNode e)), count := T.ht.count - 1 } := by
-            apply Hashlin.wf_upd_bucket iv.ht.toWf
-            intro m hm'
-            have hm2 : m ∈ T.ht.bucket (T.ht.bucketPos (spkiNode e).key) := List.mem_of_mem_erase hm'
-            have hp := Hashlin.bucketPos_eq_index iv.ht.toWf.num (spkiNode e).key
-            rw [hp]
-            exact iv.ht.toWf.filed _ (Hashlin.index_lt_valid iv.ht.toWf.num _) m (by rw [← hp]; exact hm2)
-          exact (hk hw).2.1
-        have hpos : 0 < T.ht.count := by
-          rw [c0]
-          have := (Hashlin.mem_iff_mult_pos T.ht (spkiNode e)).mp hmem
-          -- a stored node contributes to the total length
-          exact sumB_length_pos_of_count_pos _ _ _ (by unfold Hashlin.mult at this; exact this)
-        show sumB List.length T.ht.bucket T.ht.valid = n + 1
-        rw [← c0]
-        have : (T.ht.removeExisting (spkiNode e)).count = n := by rw [c1]; exact this
-        omega
-  sumB_length_pos_of_count_pos (x : HNode SpkiRec) (b : Nat → List (HNode SpkiRec)) (n : Nat)
-      (h : 0 < sumB (List.count x) b n) : 0 < sumB List.length b n := by
-    obtain ⟨i, hi, hx⟩ := (sumB_count_pos x b n).mp h
-    induction n with
-    | zero => omega
-    | succ n ih =>
-      simp only [sumB]
-      by_cases hin : i = n
-      · subst hin
-        have : 0 < (b i).length := List.length_pos_of_mem hx
-        omega
-      · have := ih (by
-          have := (sumB_count_pos x b n).mpr ⟨i, by omega, hx⟩
-          exact this) (by omega)
-        omega
+  · exact ht_count_eq_length T iv
 
 /-- **add**: a stored record is rejected as duplicate without any change; a new record is stored
     (success), appended to the list, and the invariant is kept -/
